@@ -20,6 +20,8 @@ SerialJudge(e) ==
      /\ InfeasOK(e.orig.a \o e.orig.g, e.names, e.infeas) THEN <<"ok", "rounded-system-unsatisfiable">>
   ELSE IF e.exc = "ValueError" /\ e.rounded THEN <<"unjudged", "rounded-system-may-be-unsatisfiable">>
   ELSE IF e.exc # "none" THEN <<"violation", "round-trip-raised:" \o e.exc>>
+  \* a file holds a LIST of named entries: what is read is what was written, entry for entry (names may repeat, kinds may mix)
+  ELSE IF e.file.names_w # e.file.names_r \/ e.file.kinds_w # e.file.kinds_r THEN <<"violation", e.form \o ":entries-changed">>
   ELSE IF e.form = "machine-dict"
   THEN (IF ~e.exact THEN <<"violation", "machine-dict:number-changed">>
         ELSE IF ~e.eq THEN <<"violation", "machine-dict:not-equal">>
@@ -37,7 +39,7 @@ SerialJudge(e) ==
   ELSE \* read back through a path that re-simplifies (file reader, from_dict): same interface and the same meaning
        (IF ~SameItfSets(e.orig, e.back) THEN <<"violation", e.form \o ":interface">>
         ELSE IF e.eqok /\ BagEqRows(e.orig.a, e.back.a) /\ BagEqRows(e.orig.g, e.back.g) THEN <<"ok", "same-rows">>
-        ELSE IF e.form = "file-machine" /\ e.bits THEN <<"ok", "bit-identical">>      \* driver: every number bit-equal, same rows
+        ELSE IF e.form \in {"file-machine", "file-machine-multi"} /\ e.bits THEN <<"ok", "bit-identical">>      \* driver: every number bit-equal, same rows
         ELSE IF ~e.ok THEN <<"unjudged", "magnitude">>
         ELSE DecideAll(EquivClauses(e.back, e.orig), e.names, e.hints, e.g, e.form))
 
